@@ -305,10 +305,20 @@ var c15Filters = []string{"sort", "reverse", "uniq", "compact", "first", "last",
 
 func c15Records(t *rapid.T, n int, key string) []*hx.Spec {
 	var out []*hx.Spec
+	// a third of the record sets hold integers only (zero and negative ones too) and are realised as map[string]int
+	typed := rapid.IntRange(0, 2).Draw(t, "typed-records") == 1
 	for i := 0; i < n; i++ {
 		rec := hx.SMap("id", hx.SInt(int64(i+1)))
 		for j, extra := 0, rapid.IntRange(0, 3).Draw(t, "extra"); j < extra; j++ {
 			rec.Keys, rec.E = append(rec.Keys, fmt.Sprintf("x%d", j)), append(rec.E, hx.SInt(int64(j)))
+		}
+		if typed {
+			if rapid.IntRange(0, 4).Draw(t, "kabsent") > 0 {
+				rec.Keys, rec.E = append(rec.Keys, key), append(rec.E, hx.SInt(int64(rapid.IntRange(-3, 3).Draw(t, "ki"))))
+			}
+			rec.R = "typed"
+			out = append(out, rec)
+			continue
 		}
 		switch rapid.IntRange(0, 5).Draw(t, "kk") {
 		case 0: // absent
@@ -335,7 +345,7 @@ func TestC15(t *testing.T) {
 	maxLen := env.Pick(3, 4)
 	app := c15Apply.On(col, fmt.Sprintf("bounded-exhaustive: all arrays of length 0..%d over {0,1,2}, {0.5,1.5,2}, {\"a\",\"b\",\"B\"}, each with and without nil, in every Go representation they can take ([]any, typed slice, fixed array, Go range for integer intervals, ordered YAML map values) x {sort reverse uniq compact first last size join concat}; then rapid: arrays up to length 8, arrays of maps with present/absent/nil key through sort: key and map: key, and chains of up to 4 filters. Oracle: reference functions (sort: the unique ascending order, entries lacking the key first, unspecified when ties/mixed kinds/nil elements leave it open; uniq by reference ==; join skips nil); the input iterates the same afterwards and the Go binding's deep fingerprint is unchanged; every representation renders exactly like the equal []any. Non-trivial: >= 2 elements of which >= 2 distinct; distinct by (filter, array, representation)", maxLen), false)
 	idx := 0
-	reps := []string{"", "typed", "array", "range", "mapslice"}
+	reps := []string{"", "typed", "array", "range", "mapslice", "typed:int8", "typed:int32", "typed:int64", "typed:uint16", "typed:uint", "typed:float32"}
 	var rec func(al []*hx.Spec, cur []*hx.Spec, n int)
 	rec = func(al []*hx.Spec, cur []*hx.Spec, n int) {
 		if len(cur) == n {
